@@ -750,25 +750,34 @@ class VarsManager(object):
         r = self.variables[name + "r"]
         p = self.variables[name + "i"]
         if r < 0:
-            r.assign(tf.abs(r))
             if type(self.complex_vars[name]) == list:
+                r.assign(tf.abs(r))
                 for name_r in self.complex_vars[name]:
                     self.variables[name_r[:-1] + "i"].assign_add(np.pi)
             else:
-                # a shared radius (set_share_r) changes sign for all its owners
-                shared = [name + "r"]
-                for l in self.same_list:
-                    if name + "r" in l:
-                        shared = l
-                        break
-                done = []
-                for name_r in shared:
-                    if name_r[:-1] not in self.complex_vars:
-                        continue
-                    p_i = self.variables[name_r[:-1] + "i"]
-                    if all(p_i is not j for j in done):
-                        p_i.assign_add(np.pi)
-                        done.append(p_i)
+                # every variable tied to this one through a radius or a phase keeps
+                # its value if all their radii change sign and all their phases get pi
+                group = [name]
+                for n in group:
+                    for l in self.same_list:
+                        if n + "r" in l or n + "i" in l:
+                            for m in l:
+                                if m[:-1] in self.complex_vars and (
+                                    m[:-1] not in group
+                                ):
+                                    group.append(m[:-1])
+                rs, ps = [], []
+                for n in group:
+                    r_n = self.variables[n + "r"]
+                    p_n = self.variables[n + "i"]
+                    if all(r_n is not j for j in rs):
+                        rs.append(r_n)
+                    if all(p_n is not j for j in ps):
+                        ps.append(p_n)
+                for r_n in rs:
+                    r_n.assign(-r_n)
+                for p_n in ps:
+                    p_n.assign_add(np.pi)
         p.assign(self._std_polar_angle(p))
 
     def std_polar_all(self):  # std polar expression: r>0, -pi<p<pi
